@@ -41,7 +41,8 @@ ASSUMPTIONS = ['forced rewrites (--force-rewrite) are excluded from the idempote
 
 PRIOR = ['content', 'size', 'delete', 'stray', 'm-digest', 'm-drop', 'm-ghost',
          'm-compatible-dup', 'm-chain', 'unreg-valid', 'unreg-stale', 'unreg-invalid',
-         'm-dist-twin', 'm-dup-ignore']
+         'm-dist-twin', 'm-dup-ignore', 'm-compatible-dup-across',
+         'm-compatible-dup-across']
 N = {'quick': 400, 'thorough': 15000}
 PER_UNIT = 8
 
@@ -261,6 +262,12 @@ def run_unit(u, ctx):
                    'watermark': rng.choice([None, 0, 128, 10**6]),
                    'format': rng.choice(['gz', 'bz2', 'lzma', 'xz']),
                    'wseed': rng.randrange(1 << 30)}
+            unions = [r['union'] for r in case['mutations'] if r.get('union')]
+            if unions and rng.random() < 0.7:
+                # the requested hash set is exactly what two entries for one file,
+                # in two Manifests, have between them
+                opt['hashes'] = list(unions[0])
+                ctx.count('union_hash_set_updates')
             case['opt'] = opt
             case['mode'] = rng.choice(['lib', 'lib', 'cli', 'cli-t', 'lib-same'])
             case['replicas'] = [[rng.randrange(1 << 30), rng.randrange(1 << 30)]
